@@ -40,7 +40,8 @@ def Verdict.mapId (φ : Str → Str) : Verdict → Verdict
   | .err k => .err k
 
 def RuleConfig.mapId (φ : Str → Str) (c : RuleConfig) : RuleConfig :=
-  { c with subjects := c.subjects.map (List.map (Filter.mapId φ)), objects := c.objects.map (List.map (Filter.mapId φ)) }
+  { c with subjects := c.subjects.map (List.map (Filter.mapId φ)), objects := c.objects.map (List.map (Filter.mapId φ)),
+           dropped := c.dropped.map (Filter.mapId φ) }
 
 def RuleState.mapId (φ : Str → Str) (s : RuleState) : RuleState := { s with cfg := s.cfg.mapId φ }
 
